@@ -21,6 +21,7 @@ from symx.prove import Prover
 from symx.runner import Acc
 from symx.selftest import sparse_selftest
 from harness.common import bypass_guard, bound, z, fval, isclose
+from harness import fgstub
 
 PROPERTY = "C04"
 FUNCTIONS = ["molgri.space.rotobj.SphereGridNDim.gen_grid (choice of the cell model)", "molgri.space.voronoi.AbstractVoronoi.get_reduced_vertices_regions", "molgri.space.voronoi.RotobjVoronoi._calculate_center_distances (4D)", "molgri.space.voronoi.HalfRotobjVoronoi._calculate_N_N_array", "HalfRotobjVoronoi._get_upper_indices",
@@ -323,27 +324,37 @@ def run_fold(shape):
     def body():
         out = {}
         with bound(Vm, coo_array=sp.coo_array, print=noprint, np=proxy):
-            h = object.__new__(Vm.HalfRotobjVoronoi)
-            h.full_voronoi = FullStub()
-            h.spherical_voronoi = SV()
-            h.my_array = full
+            h = fgstub.make_half_voronoi(Vm, N, full[:N], FullStub())     # the real __init__ chain runs (Qhull replaced by a stand-in)
             for prop in ("adjacency", "border_len", "center_distances"):
                 out[prop] = h._calculate_N_N_array(sel_property=prop)
             out["nofold"] = h._calculate_N_N_array(sel_property="border_len", include_opposing_neighbours=False)
+            # history on the same object: the caller rescales, in place, the matrices it was handed (unit conversion, prefactors ...) and
+            # asks again -- the answers must still be the folded matrices
+            snap = {p: (list(M.row), list(M.col), list(M.data)) for p, M in out.items()}
+            for p in ("border_len", "center_distances", "nofold"):
+                if len(out[p].data):
+                    out[p].data *= 3
+            again = {prop: h._calculate_N_N_array(sel_property=prop) for prop in ("adjacency", "border_len", "center_distances")}
+            again["nofold"] = h._calculate_N_N_array(sel_property="border_len", include_opposing_neighbours=False)
+            for p, (r_, c_, d_) in snap.items():      # hand the first answers on as they were
+                out[p] = sp.coo_array((sarr(d_) if d_ else np.zeros(0, dtype=object), (r_, c_)), shape=out[p].shape)
+            out["again"] = again
         return out
 
     for path in eng.explore(body):
         acc.begin(prover, path)
         cexinfo = {"gseed": shape["gseed"]}
         if path.kind == "exc":
-            bypass_guard(path.value)
+            if fgstub.BYPASSED:
+                bypass_guard(path.value)
             acc.structural("no_exception", False, detail=repr(path.value) + (path.tb or "")[-500:], cex=dict(cexinfo, kind="exception", exc=type(path.value).__name__, model=_model(path)))
             continue
         if acc.reachable is not True:
             acc.reach(prover.satisfiable(path.premises))
-        R = path.value
+        R = dict(path.value)
+        again = R.pop("again")
         m = None
-        shapes_ok = all(tuple(R[p].shape) == (N, N) for p in R)
+        shapes_ok = all(tuple(R[p].shape) == (N, N) for p in R) and all(tuple(again[p].shape) == (N, N) for p in again)
         acc.structural("result_is_NxN", shapes_ok, detail={p: tuple(R[p].shape) for p in R}, cex=dict(cexinfo, model=_model(path)))
         if not shapes_ok:
             continue
@@ -366,6 +377,11 @@ def run_fold(shape):
         for i in range(N):
             for j in range(N):
                 claims.append((f"nofold[{i},{j}]", z(Fn[i, j]) == A("border_len", i, j)))
+        for prop in ("adjacency", "border_len", "center_distances", "nofold"):
+            F1, F2 = R[prop].toarray(), again[prop].toarray()
+            for i in range(N):
+                for j in range(N):
+                    claims.append((f"same_answer_after_the_caller_rescaled_the_first[{prop},{i},{j}]", z(F2[i, j]) == z(F1[i, j])))
         acc.add(prover.prove_all(path.premises, claims), make_cex=lambda r, c=cexinfo: dict(c))
     return acc.result(eng.stats, prover.stats)
 
@@ -417,16 +433,22 @@ def replay_fold(cex):
 
     class SV:
         points = full
-    h = object.__new__(Vm.HalfRotobjVoronoi)
-    h.full_voronoi = FullStub()
-    h.spherical_voronoi = SV()
-    h.my_array = full
+    h = fgstub.make_half_voronoi(Vm, N, G, FullStub())
     bad = []
     mats = {}
     try:
         with contextlib.redirect_stdout(io.StringIO()):
             for prop in ("adjacency", "border_len", "center_distances"):
                 mats[prop] = h._calculate_N_N_array(sel_property=prop)
+            # the same history as the symbolic run: the caller rescales what it got, asks again, and the second answers are judged as well
+            firstd = {p: np.asarray(M.toarray(), dtype=float).copy() for p, M in mats.items()}
+            for p in ("border_len", "center_distances"):
+                if mats[p].nnz:
+                    mats[p].data *= 3
+            for prop in ("adjacency", "border_len", "center_distances"):
+                mats[prop] = h._calculate_N_N_array(sel_property=prop)
+                if not np.allclose(np.asarray(mats[prop].toarray(), dtype=float), firstd[prop]):
+                    bad.append(f"same_answer_after_the_caller_rescaled_the_first[{prop}]")
     except Exception as e:  # noqa: BLE001
         return {"reproduced": True, "detail": f"fold raised {e!r}"}
     for prop, Mx in mats.items():
